@@ -56,8 +56,10 @@ structure Holds (cfg : Cfg) (gw : GwCfg) (uniqueIds : Bool := true) : Prop where
       s'.q.callers = y :: rest ∧ s'.q.ready = [y]
   /-- no `ready` channel is ever closed twice (that would be a Go panic under `q.mu`) -/
   noPanic : ∀ as s, run cfg init as = some s → s.q.panics = 0
-  /-- the gateway never hands the locker a TTL of zero or less -/
-  ttlPositive : ∀ t, 0 < effTTL gw t
+  /-- the gateway never hands the locker a watchdog duration of zero or less — neither through a
+      small TTL nor through `time.Duration(ttl) * time.Millisecond` wrapping around for a huge one
+      (a lock "forever" would be released the moment it is granted) -/
+  ttlPositive : ∀ t, 0 < effDurNs gw t
 
 theorem inv_step (cfg : Cfg) (hg : IsGood cfg) (s : St) (a : Act) (s' : St) (h : Inv s)
     (hs : step cfg s a = some s') : Inv s' := by
@@ -138,7 +140,8 @@ theorem foreign_unlock_noop (prune : Bool) : ForeignNoop { prune := prune, uniqu
 
 /-- C14 holds for every schedule for the code shape of the unchanged tree. -/
 theorem holds_good (cfg : Cfg) (gw : GwCfg) (hg : IsGood cfg)
-    (hgw : 0 < gw.ttlFloor ∧ 0 ≤ gw.ttlThresh) : Holds cfg gw true := by
+    (hgw : 0 < gw.ttlFloor ∧ 0 ≤ gw.ttlThresh ∧ ∃ c, gw.ttlCap = some c ∧ 0 < c ∧ c ≤ maxTTLms) :
+    Holds cfg gw true := by
   refine ⟨foreign_unlock_noop, ?_, ?_, ?_, ?_, ?_, ?_, ?_, ?_, ?_⟩
   · intro as s h; exact (reach_inv cfg hg as s h).ready
   · intro as s h
@@ -212,8 +215,15 @@ theorem holds_good (cfg : Cfg) (gw : GwCfg) (hg : IsGood cfg)
       subst hs <;> exact key
   · intro as s h; exact (reach_inv cfg hg as s h).noPanic
   · intro t
-    unfold effTTL
-    split <;> omega
+    obtain ⟨hf, ht, c, hc, hc0, hc1⟩ := hgw
+    have key : 0 < effTTL gw t ∧ effTTL gw t ≤ c := by
+      unfold effTTL
+      simp only [hc]
+      split <;> split <;> omega
+    unfold maxTTLms at hc1
+    unfold effDurNs
+    rw [wrap64_id _ (by omega) (by omega)]
+    omega
 where
   acquired_nodup (cfg : Cfg) (as : List Act) (s : St) (h : run cfg init as = some s) :
       s.acquired.Nodup := by
@@ -384,10 +394,41 @@ theorem refutes_doubleClose (gw : GwCfg) (u : Bool) : ¬ Holds { wake := .next, 
     simp [hs] at hr
     omega
 
-theorem refutes_ttlFloor (cfg : Cfg) (gw : GwCfg) (u : Bool) (h0 : gw.ttlFloor ≤ 0) : ¬ Holds cfg gw u := by
+theorem refutes_ttlFloor (cfg : Cfg) (gw : GwCfg) (u : Bool) (h0 : gw.ttlFloor ≤ 0)
+    (h1 : -9223372036854 ≤ gw.ttlFloor) (hc : ∀ c, gw.ttlCap = some c → -9223372036854 ≤ c) :
+    ¬ Holds cfg gw u := by
   intro h
   have := h.ttlPositive gw.ttlThresh
-  simp [effTTL] at this
+  have key : effTTL gw gw.ttlThresh ≤ 0 ∧ -9223372036854 ≤ effTTL gw gw.ttlThresh := by
+    unfold effTTL
+    simp only [Int.le_refl, if_true]
+    split
+    · rename_i c hcc
+      have := hc c hcc
+      split <;> omega
+    · omega
+  unfold effDurNs at this
+  rw [wrap64_id _ (by omega) (by omega)] at this
+  omega
+
+/-- No upper clamp (or one that is too high): `Lock(TTL = 9223372036855 ms)` — still a valid int64 —
+    becomes `time.Duration(9223372036855) * time.Millisecond`, which exceeds `math.MaxInt64`
+    nanoseconds and wraps to a negative duration: the watchdog fires immediately. -/
+theorem refutes_ttlOverflow (cfg : Cfg) (gw : GwCfg) (u : Bool) (ht : gw.ttlThresh < 9223372036855)
+    (hc : ∀ c, gw.ttlCap = some c → 9223372036855 ≤ c ∧ c ≤ 18446744073709) : ¬ Holds cfg gw u := by
+  intro h
+  have := h.ttlPositive 9223372036855
+  have key : 9223372036855 ≤ effTTL gw 9223372036855 ∧ effTTL gw 9223372036855 ≤ 18446744073709 := by
+    unfold effTTL
+    have : ¬ (9223372036855 : Int) ≤ gw.ttlThresh := by omega
+    simp only [this, if_false]
+    split
+    · rename_i c hcc
+      have := hc c hcc
+      split <;> omega
+    · omega
+  unfold effDurNs at this
+  rw [wrap64_over _ (by omega) (by omega)] at this
   omega
 
 /-- Per-queue ticket numbers as lock ids: key 10 and key 11 both hand out id 1; an `Unlock(11, 1)`
@@ -420,9 +461,27 @@ theorem refutes_ticketIds (cfg : Cfg) (gw : GwCfg) : ¬ Holds cfg gw false := by
 
 /-- the gateway's floor as extracted: every TTL at or below the threshold becomes the floor,
     and the effective TTL is never below `min floor (thresh+1)` -/
-theorem ttl_floor (gw : GwCfg) (t : Int) (h : gw.ttlFloor ≤ gw.ttlThresh + 1) :
+theorem ttl_floor (gw : GwCfg) (t : Int) (h : gw.ttlFloor ≤ gw.ttlThresh + 1)
+    (hc : ∀ c, gw.ttlCap = some c → gw.ttlFloor ≤ c) :
     gw.ttlFloor ≤ effTTL gw t := by
-  unfold effTTL; split <;> omega
+  unfold effTTL
+  cases hcc : gw.ttlCap with
+  | none => dsimp only; split <;> omega
+  | some c =>
+    have := hc c hcc
+    dsimp only
+    split <;> split <;> omega
+
+/-- with the clamp in place the duration is exact: no wrap-around for any request -/
+theorem ttl_exact (gw : GwCfg) (t c : Int) (hf : 0 < gw.ttlFloor) (hc : gw.ttlCap = some c) (h0 : 0 < c)
+    (h1 : c ≤ maxTTLms) (ht : 0 ≤ gw.ttlThresh) : effDurNs gw t = effTTL gw t * 1000000 := by
+  have key : 0 < effTTL gw t ∧ effTTL gw t ≤ c := by
+    unfold effTTL
+    simp only [hc]
+    split <;> split <;> omega
+  unfold maxTTLms at h1
+  unfold effDurNs
+  rw [wrap64_id _ (by omega) (by omega)]
 
 /-! ### Decision over the extracted facts -/
 
@@ -447,6 +506,9 @@ structure Facts where
   /-- gateway TTL floor -/
   ttlThresh : Option Int
   ttlFloor : Option Int
+  /-- gateway TTL upper clamp: `none` = shape not recognised, `some none` = no clamp at all,
+      `some (some c)` = `if in.GetTTL() > c { in.TTL = c }` -/
+  ttlCap : Option (Option Int)
   /-- gateway `Lock` passes `context.WithoutCancel(ctx)` to the locker (a queued RPC is never
       abandoned half-way: the `cancel` action then only arises inside the lock package) -/
   gwWithoutCancel : Tri
@@ -460,26 +522,62 @@ def structural (f : Facts) : Bool :=
   f.enqueueGrantsWhenEmpty.isYes && f.wasHeadIsIndexZero.isYes &&
   f.cancelRemoves.isYes && f.ttlRemoves.isYes && f.unlockRemoves.isYes && f.gwWithoutCancel != .unknown
 
-def classifyCore (w : Wake) (h : Bool) (th fl : Int) : Verdict :=
+def classifyTTL (th fl : Int) (cap : Option Int) : Verdict :=
+  if fl ≤ 0 then
+    (if -9223372036854 ≤ fl ∧ (∀ c, cap = some c → -9223372036854 ≤ c) then .violated ["C14-ttl-floor"]
+     else .undetermined "gateway TTL floor / clamp below -2^63 ns")
+  else if th < 0 then .undetermined "gateway TTL threshold is negative"
+  else match cap with
+    | some c =>
+      if 0 < c ∧ c ≤ maxTTLms then .holds
+      else if 9223372036855 ≤ c ∧ c ≤ 18446744073709 ∧ th < 9223372036855 then .violated ["C14-ttl-overflow"]
+      else .undetermined "gateway TTL clamp outside the modelled range"
+    | none => if th < 9223372036855 then .violated ["C14-ttl-overflow"] else .undetermined "gateway TTL threshold beyond MaxInt64 ms"
+
+theorem ttl_sound (cfg : Cfg) (hg : IsGood cfg) (th fl : Int) (cap : Option Int) :
+    (classifyTTL th fl cap).Sound (Holds cfg ⟨th, fl, cap⟩ true) := by
+  unfold classifyTTL
+  by_cases h0 : fl ≤ 0
+  · simp only [h0, if_true]
+    split
+    · rename_i h1; exact ⟨refutes_ttlFloor _ _ _ h0 h1.1 h1.2, trivial⟩
+    · simp [Verdict.Sound]
+  · simp only [h0, if_false]
+    by_cases h1 : th < 0
+    · simp [h1, Verdict.Sound]
+    · simp only [h1, if_false]
+      cases cap with
+      | none =>
+        dsimp only
+        split
+        · rename_i h2
+          exact ⟨refutes_ttlOverflow _ _ _ h2 (by intro c hc; simp at hc), trivial⟩
+        · simp [Verdict.Sound]
+      | some c =>
+        dsimp only
+        split
+        · rename_i h2
+          exact holds_good _ _ hg ⟨by show 0 < fl; omega, by show 0 ≤ th; omega, c, rfl, h2.1, h2.2⟩
+        · split
+          · rename_i h3
+            refine ⟨refutes_ttlOverflow _ _ _ h3.2.2 ?_, trivial⟩
+            intro c' hc'
+            have : c' = c := by simpa using hc'.symm
+            subst this; exact ⟨h3.1, h3.2.1⟩
+          · simp [Verdict.Sound]
+
+def classifyCore (w : Wake) (h : Bool) (th fl : Int) (cap : Option Int := none) : Verdict :=
   match w, h with
   | .last, _ => .violated ["C14-wakes-last-waiter"]
   | .none, _ => .violated ["C14-no-wake"]
   | .next, false => .violated ["C14-ready-closed-twice"]
-  | .next, true =>
-    if fl ≤ 0 then .violated ["C14-ttl-floor"]
-    else if 0 ≤ th then .holds else .undetermined "gateway TTL threshold is negative"
+  | .next, true => classifyTTL th fl cap
 
-theorem core_sound (w : Wake) (h : Bool) (th fl : Int) :
-    (classifyCore w h th fl).Sound (Holds ⟨w, h⟩ ⟨th, fl⟩ true) := by
+theorem core_sound (w : Wake) (h : Bool) (th fl : Int) (cap : Option Int) :
+    (classifyCore w h th fl cap).Sound (Holds ⟨w, h⟩ ⟨th, fl, cap⟩ true) := by
   cases w <;> cases h <;> simp only [classifyCore, Verdict.Sound]
   · exact ⟨refutes_doubleClose _ _, trivial⟩
-  · by_cases h0 : fl ≤ 0
-    · simp only [h0, if_true]; exact ⟨refutes_ttlFloor _ _ _ h0, trivial⟩
-    · simp only [h0, if_false]
-      by_cases h1 : 0 ≤ th
-      · simp only [h1, if_true]
-        exact holds_good _ _ ⟨rfl, rfl⟩ ⟨by show 0 < fl; omega, h1⟩
-      · simp only [h1, if_false]
+  · exact ttl_sound _ ⟨rfl, rfl⟩ th fl cap
   · exact ⟨refutes_wakeLast _ _ _, trivial⟩
   · exact ⟨refutes_wakeLast _ _ _, trivial⟩
   · exact ⟨refutes_wakeNone _ _ _, trivial⟩
@@ -490,14 +588,15 @@ def triBool : Tri → Option Bool
 
 def classify (f : Facts) : Verdict :=
   if !structural f then .undetermined "lock.go no longer has the modelled shape (atomicity / remove call sites)" else
-  match f.idSource, f.wake, triBool f.wakeOnlyIfHead, f.ttlThresh, f.ttlFloor with
-  | some false, some _, some _, some _, some _ => .violated ["C14-foreign-id-unlock"]
-  | some true, some w, some h, some th, some fl => classifyCore w h th fl
-  | _, _, _, _, _ => .undetermined "lock.idSource / lock.wake / lock.wakeOnlyIfHead / gateway TTL floor"
+  match f.idSource, f.wake, triBool f.wakeOnlyIfHead, f.ttlThresh, f.ttlFloor, f.ttlCap with
+  | some false, some _, some _, some _, some _, some _ => .violated ["C14-foreign-id-unlock"]
+  | some true, some w, some h, some th, some fl, some cap => classifyCore w h th fl cap
+  | _, _, _, _, _, _ => .undetermined "lock.idSource / lock.wake / lock.wakeOnlyIfHead / gateway TTL floor and clamp"
 
 def cfgOf (f : Facts) : Cfg :=
   { wake := f.wake.getD .none, wakeOnlyIfHead := (triBool f.wakeOnlyIfHead).getD false }
-def gwOf (f : Facts) : GwCfg := { ttlThresh := f.ttlThresh.getD 0, ttlFloor := f.ttlFloor.getD 0 }
+def gwOf (f : Facts) : GwCfg :=
+  { ttlThresh := f.ttlThresh.getD 0, ttlFloor := f.ttlFloor.getD 0, ttlCap := f.ttlCap.getD none }
 def uniqueOf (f : Facts) : Bool := f.idSource.getD false
 
 theorem classify_sound (f : Facts) : (classify f).Sound (Holds (cfgOf f) (gwOf f) (uniqueOf f)) := by
@@ -505,12 +604,12 @@ theorem classify_sound (f : Facts) : (classify f).Sound (Holds (cfgOf f) (gwOf f
   split
   · simp [Verdict.Sound]
   · split
-    · rename_i hi _ _ _ _
+    · rename_i hi _ _ _ _ _
       simp only [Verdict.Sound, uniqueOf, hi, Option.getD]
       exact ⟨refutes_ticketIds _ _, trivial⟩
-    · rename_i w h th fl hi hw hh ht hf
-      simp only [cfgOf, gwOf, uniqueOf, hi, hw, hh, ht, hf, Option.getD]
-      exact core_sound w h th fl
+    · rename_i w h th fl cap hi hw hh ht hf hcp
+      simp only [cfgOf, gwOf, uniqueOf, hi, hw, hh, ht, hf, hcp, Option.getD]
+      exact core_sound w h th fl cap
     · simp [Verdict.Sound]
 
 end Hv.C14
